@@ -88,6 +88,19 @@ def ng_inv(scfg):
     return None
 
 
+def generator_shared(scfg):
+    """name of a region whose sub-graph does not use the top-level graph's generator object (None: all shared)"""
+    st = [scfg]
+    while st:
+        g = st.pop()
+        for k, b in g.graph.items():
+            if type(b).__name__ == 'RegionBlock' and b.subregion is not None:
+                if b.subregion.name_gen is not scfg.name_gen:
+                    return k
+                st.append(b.subregion)
+    return None
+
+
 def pipeline_case(g0, rename=None):
     """run the stages on g0 (names optionally renamed into the generator's namespace)."""
     from numba_scfg.core.datastructures.scfg import SCFG
@@ -116,6 +129,20 @@ def pipeline_case(g0, rename=None):
             bad = ng_inv(scfg)
             if bad and not in_region_K:
                 out.append({'kind': 'NG_inv-broken', 'stage': stage, 'name': bad})
+            sh = generator_shared(scfg)
+            if sh:
+                out.append({'kind': 'generator-not-shared', 'stage': stage, 'name': sh})
+    # written out and read back: one generator for the graph and all of its sub-graphs (names handed out "for that
+    # graph or any of its sub-graphs" must differ - two generators would both start at the same index)
+    if not out:
+        try:
+            from numba_scfg.core.datastructures.scfg import SCFGIO
+            g2, _ = SCFGIO.from_dict(SCFGIO.to_dict(scfg))
+            sh = generator_shared(g2)
+            if sh:
+                out.append({'kind': 'generator-not-shared-after-reload', 'stage': 'reload', 'name': sh})
+        except Exception as e:
+            out.append({'kind': 'reload-raises:' + type(e).__name__, 'stage': 'reload'})
     return out, in_region_K, mon.n
 
 
